@@ -21,7 +21,8 @@ RULE = ("seeded model programs with seeded streams (re-created in construct_mode
 ASSUMPTIONS = ["streams are re-created with the same seed in construct_model (not doing so is a model error, not generated)",
                "the second replication uses the same model object and the same replication settings"]
 
-HIST = ["fresh", "step", "pause", "bounded", "ended", "fault", "cleanup", "init_while_running", "ended_twice"]
+HIST = ["fresh", "step", "pause", "bounded", "ended", "fault", "cleanup", "init_while_running", "ended_twice", "end_replication",
+        "init_while_starting"]
 
 
 def plan(tier):
@@ -98,6 +99,38 @@ def run_case(case, ctx):
             a.cmd("start")
         elif hist == "fault":
             a.cmd("start")          # the history program has a failing handler under WARN_AND_PAUSE
+        elif hist == "end_replication":
+            for _ in range(case["k"]):
+                a.cmd("step")
+            a.cmd("end_replication")
+        elif hist == "init_while_starting":
+            # initialize() issued from a listener while start() is in progress (state STARTING): must be refused and must
+            # not touch the replication that is being started
+            res = {}
+
+            def on_notify(name, event):
+                if name in ("STARTING_EVENT", "START_REPLICATION_EVENT") and "out" not in res and (case["k"] % 2 == (name == "STARTING_EVENT")):
+                    res["before"] = a.sim.eventlist().size()
+                    n_inits = a.inits
+                    res["out"] = a.cmd("initialize")
+                    res["after"] = a.sim.eventlist().size()
+                    res["constructed"] = a.inits != n_inits
+            a.on_notify = on_notify
+            a.cmd("start")
+            a.wait_quiescent(20)
+            a.on_notify = None
+            if "out" in res:
+                ctx.count("refused_initialize_while_running")
+                if res["out"] == "ok" or res["constructed"]:
+                    ctx.viol("initialize-while-running-accepted", {**where, "outcome": res["out"]})
+                    return
+                if res["after"] != res["before"]:
+                    ctx.viol("refused-initialize-changed-state", {**where, "pending_before": res["before"], "pending_after": res["after"]})
+                    return
+                first = _observe_replication(a, 0, 0)
+                if first["trace"] != want["trace"] or first["stats"] != want["stats"]:
+                    ctx.viol("refused-initialize-disturbed-the-run", {**where, "got": str(first["trace"])[:400], "fresh": str(want["trace"])[:400]})
+                    return
         elif hist == "cleanup":
             a.cmd("step")
             a.cmd("cleanup")
